@@ -1174,10 +1174,10 @@ class VM:
             return obj.get(key_str)
 
         if isinstance(obj, JSArray):
-            # Array index access
+            # Array index access: only canonical index keys ("1", not "01" or "-0")
             try:
                 idx = int(key_str)
-                if idx >= 0:
+                if idx >= 0 and str(idx) == key_str:
                     return obj.get_index(idx)
             except ValueError:
                 pass
